@@ -4,12 +4,15 @@ import os, re, subprocess
 import vlib
 
 CORPUS = os.path.join(vlib.ROOT, "corpus", "C01-window-fork.json")
+# the same fork with every coin bit true: reachable by the order of delivery alone (no special hash)
+CORPUS_SCHED = os.path.join(vlib.ROOT, "corpus", "C01-window-fork-sched.json")
 
-def replay():
-    if not os.path.exists(CORPUS):
+def replay(corpus=None):
+    corpus = corpus or CORPUS
+    if not os.path.exists(corpus):
         return None
     try:
-        p = subprocess.run([vlib.exe("winfork"), CORPUS], stdout=subprocess.PIPE, stderr=subprocess.PIPE,
+        p = subprocess.run([vlib.exe("winfork"), corpus], stdout=subprocess.PIPE, stderr=subprocess.PIPE,
                            env=vlib.GOENV, timeout=300)
         rc, raw, err = p.returncode, p.stdout, p.stderr.decode("utf-8", "replace")[-400:]
     except (subprocess.TimeoutExpired, OSError) as e:
@@ -27,31 +30,36 @@ def replay():
                 stats=z.group(1) if z else "", window=wl.group(1) if wl else "", err=err)
 
 def apply(pid, ctx, findings, diffs, cov):
-    """Adds the replay's oracle lines of property pid to the findings; a scenario that can no longer be staged, a
+    """Adds the replays' oracle lines of property pid to the findings; a scenario that can no longer be staged, a
     crash, or a model/implementation difference is a broken correspondence, not silence."""
-    w = replay()
+    for name, corpus in (("window-fork", CORPUS), ("window-fork-sched", CORPUS_SCHED)):
+        _apply_one(pid, ctx, findings, diffs, cov, name, corpus)
+
+def _apply_one(pid, ctx, findings, diffs, cov, name, corpus):
+    w = replay(corpus)
+    key = name.replace("-", "_") + "_replay"
     if w is None:
-        diffs.append("window-fork replay: corpus/C01-window-fork.json is missing")
+        diffs.append("%s replay: %s is missing" % (name, os.path.relpath(corpus, vlib.ROOT)))
         return
-    cov["window_fork_replay"] = dict(staged=w["staged"], model_cases=w["cases"], model_diffs=len(w["diffs"]),
-                                     oracle=[v[:300] for v in w["vlines"]][:4], statistics=w["stats"], model_window=w["window"])
+    cov[key] = dict(staged=w["staged"], model_cases=w["cases"], model_diffs=len(w["diffs"]),
+                    oracle=[v[:300] for v in w["vlines"]][:4], statistics=w["stats"], model_window=w["window"])
     cov["evaluations"] = cov.get("evaluations", 0) + w["cases"]
     if not w["staged"]:
         if w["rc"] not in (0, 3):
             findings.append(dict(cls="harness-crash", key="winfork rc=%s %s" % (w["rc"], w["err"][:200]), detail=w["err"]))
-        diffs.append("window-fork replay: the recorded history can no longer be staged on this tree (%s): "
-                     "regenerate corpus/C01-window-fork.json with build/winfork -gen" % (w["reason"] or "rc=%s" % w["rc"]))
+        diffs.append("%s replay: the recorded history can no longer be staged on this tree (%s): "
+                     "regenerate %s with build/winfork -gen" % (name, w["reason"] or "rc=%s" % w["rc"], os.path.relpath(corpus, vlib.ROOT)))
         return
     if not w["runner_ok"]:
-        findings.append(dict(cls="harness-crash", key="runner on the winfork trace", detail=w["err"]))
+        findings.append(dict(cls="harness-crash", key="runner on the winfork trace (%s)" % name, detail=w["err"]))
     for d in w["diffs"][:5]:
-        diffs.append("window-fork replay " + d)
+        diffs.append("%s replay %s" % (name, d))
     mine = 0
     for v in w["vlines"]:
         m = re.search(r"^V (\S+) (\S+) (.*)$", v)
         if m and m.group(1) == pid:
             mine += 1
-            findings.append(dict(cls=m.group(2), key=m.group(3)[:200], detail="window-fork replay " + v))
+            findings.append(dict(cls=m.group(2), key=m.group(3)[:200], detail="%s replay %s" % (name, v)))
     if mine == 0:
-        ctx["notes"].append("the recorded window-fork history no longer violates %s on this tree (the Coq refutations "
-                            "C10_window_refuted / C01_agreement_dynamic_refuted are about the model of the pinned code)" % pid)
+        ctx["notes"].append("the recorded %s history no longer violates %s on this tree (the Coq refutations "
+                            "C10_window_refuted / C01_agreement_dynamic_refuted are about the model of the pinned code)" % (name, pid))
